@@ -35,7 +35,8 @@ Record field := { f_name : str; f_type : str; f_opt : bool; f_pub : bool;
                   f_rename : option str; f_valid : option str }.
 Record struct := { s_name : str; s_file : str; s_enum : bool; s_fields : list field; s_rename_all : option str }.
 Record event := { e_name : str; e_payload : str }.
-Record analysis := { a_cmds : list command; a_structs : list struct; a_events : list event }.
+Record analysis := { a_cmds : list command; a_structs : list struct; a_events : list event;
+                     a_ndefs : list str (* per file: how many type definitions were indexed *) }.
 
 (* GenerateConfig: the fields that matter to a run (interface/config.rs:18-72) *)
 Record config := { g_lib : str; g_private : bool; g_maps : option (list (str * str));
@@ -43,9 +44,10 @@ Record config := { g_lib : str; g_private : bool; g_maps : option (list (str * s
                    g_ppath : str (* project_path as spelled: file_path = g_ppath/<file> *) }.
 
 (* ---- a project on disk and the discovery order ---- *)
-Record sfile := { sf_path : str; sf_cmds : list command; sf_structs : list struct; sf_events : list event }.
+Record sfile := { sf_path : str; sf_cmds : list command; sf_structs : list struct; sf_events : list event;
+                  sf_ndefs : str (* number of struct/enum definitions in the file, used or not *) }.
 Definition project := list sfile.
-Definition empty_file : sfile := {| sf_path := []; sf_cmds := []; sf_structs := []; sf_events := [] |}.
+Definition empty_file : sfile := {| sf_path := []; sf_cmds := []; sf_structs := []; sf_events := []; sf_ndefs := [] |}.
 
 (* schedule = iteration order of the file map (AstCache, analysis/mod.rs:88) and iteration order of the
    type_mappings map (serialised by hash_config in map order) *)
@@ -77,7 +79,8 @@ Definition struct_leb (a b : struct) : bool := str_leb (s_name a) (s_name b).
    files (the hash sorts them by name); events in discovery order *)
 Definition analyse (w : sched) (p : project) : analysis :=
   let fs := pick empty_file p (w_files w) in
-  {| a_cmds := flat_map sf_cmds fs; a_structs := flat_map sf_structs fs; a_events := flat_map sf_events fs |}.
+  {| a_cmds := flat_map sf_cmds fs; a_structs := flat_map sf_structs fs; a_events := flat_map sf_events fs;
+     a_ndefs := map sf_ndefs fs |}.
 
 Definition maps_in_order (w : sched) (c : config) : option (list (str * str)) :=
   match g_maps c with None => None | Some l => Some (pick ([], []) l (w_maps w)) end.
@@ -113,10 +116,10 @@ Definition kv_leb (a b : str * str) : bool := str_leb (fst a) (fst b).
 Definition hmaps (o : option (list (str * str))) : tree :=
   match o with None => TN [] | Some l => TN [TN (map (fun kv => TN [TA (fst kv); TA (snd kv)]) (isort kv_leb l))] end.
 
-(* sort key (relative file, name) *)
+(* sort key: the relative file only; the sort is stable (Rust sort_by; insert / isort here), so the commands of
+   one file keep their source order - the order the generated files follow (repair C08-10) *)
 Definition cmd_leb (root : str) (a b : command) : bool :=
-  if str_eqb (rel_path root (c_file a)) (rel_path root (c_file b)) then str_leb (c_name a) (c_name b)
-  else str_leb (rel_path root (c_file a)) (rel_path root (c_file b)).
+  str_leb (rel_path root (c_file a)) (rel_path root (c_file b)).
 
 Definition fp_cmds (root : str) (a : analysis) : tree := TN (map (hc root) (isort (cmd_leb root) (a_cmds a))).
 Definition fp_structs (root : str) (a : analysis) : tree := TN (map (hs root) (isort struct_leb (a_structs a))).
@@ -131,9 +134,10 @@ Definition fp (w : sched) (p : project) (c : config) : tree :=
   TN [fp_cmds (g_ppath c) (analyse w p); fp_structs (g_ppath c) (analyse w p); fp_cfg c; u_events (analyse w p)].
 
 (* ---- data that reaches the output but not the hash: the remaining recorded class 8 ---- *)
-(* the text graph prints file:line of every command (dependency_graph.rs); line_number is not hashed *)
+(* data printed into dependency-graph.txt only and not hashed (dependency_graph.rs): file:line of every command,
+   and the summary lines counting every indexed type definition, reachable from a command or not *)
 Definition u_lines (a : analysis) (c : config) : tree :=
-  if g_viz c then TN (map (fun k => TA (c_line k)) (a_cmds a)) else TN [].
+  if g_viz c then TN [TN (map (fun k => TA (c_line k)) (a_cmds a)); TN (map TA (a_ndefs a))] else TN [].
 
 Definition unhashed (w : sched) (p : project) (c : config) : list tree :=
   let a := analyse w p in [u_lines a c].
